@@ -588,7 +588,9 @@ static void run_case(Toks &tk) {
   }
 }
 
+static long mem_limit_kb = 3L * 1024 * 1024;   // resident memory a single case may use (VERIF_MEM_KB overrides)
 int main(int argc, char **argv) {
+  if (getenv("VERIF_MEM_KB")) mem_limit_kb = atol(getenv("VERIF_MEM_KB"));
   if (argc < 2) return 2;
   int tmo = argc > 2 ? atoi(argv[2]) : 10;
   int max_timeouts = argc > 3 ? atoi(argv[3]) : 4;  // after that many hangs the rest of the shard is skipped
@@ -627,8 +629,30 @@ int main(int argc, char **argv) {
       _exit(0);
     }
     int st = 0;
-    waitpid(pid, &st, 0);
-    if (WIFSIGNALED(st)) {
+    // wait, watching the child's resident memory: a case that grows beyond the limit is killed and reported as
+    // MEMLIMIT (work not bounded by the input), so that a runaway allocation cannot take the machine down
+    bool memkill = false;
+    for (;;) {
+      pid_t w = waitpid(pid, &st, WNOHANG);
+      if (w == pid) break;
+      if (w < 0) break;
+      char pth[64];
+      snprintf(pth, sizeof pth, "/proc/%d/statm", (int)pid);
+      FILE *f = fopen(pth, "r");
+      if (f) {
+        long size = 0, rss = 0;
+        if (fscanf(f, "%ld %ld", &size, &rss) == 2 && rss * (sysconf(_SC_PAGESIZE) / 1024) > mem_limit_kb) {
+          memkill = true;
+          kill(pid, SIGKILL);
+        }
+        fclose(f);
+      }
+      usleep(memkill ? 1000 : 20000);
+    }
+    if (memkill) {
+      printf("\n%s MEMLIMIT\n", id.c_str());
+      timeouts++;
+    } else if (WIFSIGNALED(st)) {
       int sg = WTERMSIG(st);
       if (sg == SIGALRM) {
         printf("\n%s TIMEOUT\n", id.c_str());
